@@ -162,3 +162,44 @@ Definition branch_first_char (t : node) : option (Z * Z) :=
   | NConcat _ (x :: _) => leaf_first_char x
   | _ => leaf_first_char t
   end.
+
+(* ---- auto-atomicity of a loop that ENDS a nested group (processNode's descent, tree.go:401-424,
+   459-474): the loop is not the head of the concatenation whose next element justifies the rewrite,
+   so the two sub-trees are not equivalent by themselves — the rewritten one has FEWER results.
+   [drops P l l']: l' is l with some elements satisfying P deleted (order kept).
+   [rw_prunes e P t t']: from every state, the results of t' are those of t minus some P-states.
+   [atomized e P t t']: t' is t with single-character loops at its END made atomic, where every state
+   whose next character passes such a loop's test satisfies P. ---- *)
+Inductive drops {A} (P : A -> Prop) : list A -> list A -> Prop :=
+| drops_nil : drops P [] []
+| drops_keep a l l' : drops P l l' -> drops P (a :: l) (a :: l')
+| drops_drop a l l' : P a -> drops P l l' -> drops P (a :: l) l'.
+
+Definition rw_prunes (e : env) (P : st -> Prop) (t t' : node) : Prop :=
+  (forall s l, rw_evals e t s l -> exists l', rw_evals e t' s l' /\ drops P l l') /\
+  (forall s l', rw_evals e t' s l' -> exists l, rw_evals e t s l /\ drops P l l').
+
+Definition pos_pred (P : st -> Prop) : Prop := forall s s', pos s = pos s' -> P s -> P s'.
+
+Section Atomized.
+Variable e : env.
+Variable P : st -> Prop.
+Inductive atomized : node -> node -> Prop :=
+| AZ_refl t : atomized t t
+| AZ_loop k l o c m n : 0 <= m -> (forall s, next_in e k o c s -> P s) ->
+    atomized (NCharLoop k l o c m n) (NCharLoop k LAtomic o c m n)           (* greedy, or lazy "to greedy" *)
+| AZ_capture o g u t t' : atomized t t' -> atomized (NCapture o g u t) (NCapture o g u t')
+| AZ_group t t' : atomized t t' -> atomized (NGroup t) (NGroup t')
+| AZ_concat o pre t t' : atomized t t' -> atomized (NConcat o (pre ++ [t])) (NConcat o (pre ++ [t']))
+| AZ_alt o l l' : atomized_list l l' -> atomized (NAlternate o l) (NAlternate o l')
+| AZ_backref_cond o g y y' n n' : atomized y y' -> atomized_opt n n' ->
+    atomized (NBackRefCond o g y n) (NBackRefCond o g y' n')
+| AZ_expr_cond o c y y' n n' : atomized y y' -> atomized_opt n n' ->
+    atomized (NExprCond o c y n) (NExprCond o c y' n')
+with atomized_list : list node -> list node -> Prop :=
+| AZL_nil : atomized_list [] []
+| AZL_cons t t' l l' : atomized t t' -> atomized_list l l' -> atomized_list (t :: l) (t' :: l')
+with atomized_opt : option node -> option node -> Prop :=
+| AZO_none : atomized_opt None None
+| AZO_some t t' : atomized t t' -> atomized_opt (Some t) (Some t').
+End Atomized.
